@@ -31,7 +31,7 @@ func checkC16(c *an.Ctx) {
 	c.Rule("C16.1", "registry (E9): unmarshalData dispatches, case-insensitively, .yaml/.yml → yaml.v2, .json → encoding/json, .toml → go-toml; each case only decodes the whole input into the one map that is returned unmodified; any other extension is an error; readURL/readFile derive the extension from content type / path only")
 	c.Rule("C16.2", "one decode path (E4): mapstructure.NewDecoder has one caller with one configuration; every configDefinition is produced by it; Load and LoadGlobalConfig both go load → decode → buildFromDefinition")
 	c.Rule("C16.4", "closed schema (E9 over types): no field reachable from configDefinition has an interface type — every leaf is a string, bool, duration or a list/map of those, so mapstructure's weak conversion erases the decoders' dynamic types (YAML int, TOML int64, JSON float64; yaml.v2's map[interface{}]interface{}) before the configuration is built")
-	c.Rule("C16.3", "format-blindness (E4): outside unmarshalData/readURL/readFile nothing in internal/config looks at a file extension, a content type, or at decoder-specific dynamic types; a decode hook of the module asks at most whether its source is a string (the numeric kinds differ between the decoders)")
+	c.Rule("C16.3", "format-blindness (E4): outside unmarshalData/readURL/readFile nothing in internal/config looks at a file extension, a content type, or at decoder-specific dynamic types; a decode hook of the module asks at most whether its source is a string (the numeric kinds differ between the decoders); nothing reached from the loader compares two dynamic reflect.Types for identity")
 	c.NotDecided = append(c.NotDecided, "that the three libraries produce maps mapstructure decodes identically (key types, numeric types, YAML 1.1 booleans, durations) — the property proper", "directory imports match *.yaml only (observation)")
 	p := c.P
 	um := p.Func("internal/config", "Loader", "unmarshalData")
@@ -427,7 +427,7 @@ func checkC16(c *an.Ctx) {
 		for g := range p.Reach([]*ssa.Function{f}, func(e an.CallEdge) bool {
 			return e.Kind == an.EdgeCall && an.Outer(e.Callee).Pkg == um.Pkg && e.Callee != um && !isForwarder[e.Callee]
 		}) {
-			if g.Blocks != nil && len(an.CallsIn(g, "net/http.Get")) > 0 {
+			if g.Blocks != nil && fetchesOverHTTP(g) {
 				urlFn = f
 			}
 		}
@@ -581,6 +581,52 @@ func checkC16(c *an.Ctx) {
 			}
 		})
 	}
+	// … nor compares the dynamic types of two raw values for identity: the same document has different dynamic
+	// types per format (numbers: int / int64 / float64; maps: map[interface{}]interface{} only from YAML), so
+	// "these two have the same type" holds for one format and fails for another
+	isReflectType := func(t types.Type) bool {
+		n, ok := t.(*types.Named)
+		return ok && n.Obj().Pkg() != nil && n.Obj().Pkg().Path() == "reflect" && n.Obj().Name() == "Type"
+	}
+	dynamicType := func(v ssa.Value) bool {
+		for _, src := range an.Sources(v) {
+			call, ok := src.(*ssa.Call)
+			if !ok {
+				continue
+			}
+			switch an.ShortCallee(&call.Call) {
+			case "(reflect.Value).Type":
+				return true
+			case "reflect.TypeOf":
+				if len(call.Call.Args) == 1 {
+					arg := call.Call.Args[0]
+					if mi, ok := arg.(*ssa.MakeInterface); ok {
+						// reflect.TypeOf(T(…)) of a concrete static type is a fixed type, not a dynamic one
+						if _, isIface := mi.X.Type().Underlying().(*types.Interface); !isIface {
+							continue
+						}
+					}
+					return true
+				}
+			}
+		}
+		return false
+	}
+	for fn := range p.Reach(loaderRoots, func(e an.CallEdge) bool { return e.Kind != an.EdgeGo && an.InModule(e.Callee) }) {
+		if fn.Blocks == nil || allowed[fn] {
+			continue
+		}
+		an.EachInstr(fn, func(in ssa.Instruction) {
+			x, ok := in.(*ssa.BinOp)
+			if !ok || (x.Op != token.EQL && x.Op != token.NEQ) || !isReflectType(x.X.Type()) || !isReflectType(x.Y.Type()) {
+				return
+			}
+			if dynamicType(x.X) && dynamicType(x.Y) {
+				clean = false
+				c.Bad("C16.3", an.Short(fn)+":same-dynamic-type", x.Pos(), "%s (reached from the loader) compares the dynamic types of two values for identity: decoded values have decoder-specific dynamic types (a number is int from YAML, int64 from TOML, float64 from JSON), so the comparison comes out differently per format", an.Short(fn))
+			}
+		})
+	}
 	// decode hooks written in the module see the decoder's dynamic types (yaml: int, toml: int64, json: float64):
 	// a hook that turns the raw value into text by its dynamic type makes the three formats load differently
 	for _, fn := range p.Funcs {
@@ -707,4 +753,25 @@ func closedSchema(c *an.Ctx, rule string) {
 	walk(root.Type(), "configDefinition")
 	sort.Strings(open)
 	c.Check(len(open) == 0 && nFields > 10, rule, "config.configDefinition:closed", root.Pos(), fmt.Sprintf("no interface-typed field among the %d fields reachable from configDefinition", nFields), fmt.Sprintf("the definition keeps decoder-specific values: %v have an interface type, so a number arrives as int from YAML, int64 from TOML and float64 from JSON (and nested YAML maps as map[interface{}]interface{}) and the three formats load differently", open))
+}
+
+// fetchesOverHTTP: fn calls something of net/http that hands back a *http.Response (http.Get, Client.Do, …).
+func fetchesOverHTTP(fn *ssa.Function) bool {
+	found := false
+	an.EachInstr(fn, func(in ssa.Instruction) {
+		ci, ok := in.(ssa.CallInstruction)
+		if !ok {
+			return
+		}
+		if !strings.Contains(an.ShortCallee(ci.Common()), "net/http.") {
+			return
+		}
+		res := ci.Common().Signature().Results()
+		for i := 0; i < res.Len(); i++ {
+			if an.TypeIs(res.At(i).Type(), "net/http", "Response") {
+				found = true
+			}
+		}
+	})
+	return found
 }
